@@ -63,3 +63,256 @@ Theorem C06_single_thread_savers_closed_on_error :
         spy_log (get (fst res0) t) = firstn (ppos (get (fst res0) t)) (whole_of g comb t)).
 Proof. exact po_spies_closed_on_error. Qed.
 Print Assumptions C06_single_thread_savers_closed_on_error.
+
+(* ======================================================================================================
+   Threaded-mailbox processor: theorems over the network LTS Model/MailboxFail.v
+   (one step = one lock region of strax/mailbox.py + the lock-free code up to the next yield point;
+   a schedule is any list of thread ids; "for all schedules" = "for all sched : list nat").
+   Vocabulary: Spec/MailboxFailSpec.v; the two families of networks: Model/C06Nets.v (compared with the wiring
+   of the real ThreadedMailboxProcessor on every run of the check).
+   ====================================================================================================== *)
+From SV Require Import Base.Prelude Model.Mailbox Model.MailboxFail Model.C06Run Model.C06Nets
+  Spec.MailboxFailSpec Proof.MailboxFailExamples.
+Local Open Scope nat_scope.
+
+(* ---------- the three defects found in the exception plumbing (fx = false: the code before the repairs
+   F1-F3, design_notes/C06.md).  Each witness schedule is replayed on the real processor by the check. ---------- *)
+
+(* F1: closing ThreadedMailboxProcessor.iter() directly: TypeError at the caller, the pipeline threads stay blocked *)
+Theorem C06_pinned_F1_direct_close_hangs :
+  exists sched st,
+    nrun (chain_net f1_spec false None (Some (0, true, cexc))) (chain_init f1_spec false None (Some (0, true, cexc))) sched = Some st /\
+    deadlocked (chain_net f1_spec false None (Some (0, true, cexc))) st /\
+    main_outcome st (chain_main f1_spec) = Some (OErr (EOrig C_TYPEERR)).
+Proof. exists f1_sched. exact f1_direct_close_hangs. Qed.
+Print Assumptions C06_pinned_F1_direct_close_hangs.
+
+(* F2: a saver of a side output fails: the caller gets StopIteration (RuntimeError) instead of the exception *)
+Theorem C06_pinned_F2_wrong_exception :
+  exists sched st,
+    nrun (fan_net f2_spec false (Some (3, 0, boom)) None) (fan_init f2_spec false (Some (3, 0, boom)) None) sched = Some st /\
+    quiescent (fan_net f2_spec false (Some (3, 0, boom)) None) st /\ all_terminal st = true /\
+    main_outcome st (fan_main f2_spec) = Some (OErr (EOrig C_STOPITER)).
+Proof. exists f2_sched. exact f2_wrong_exception. Qed.
+Print Assumptions C06_pinned_F2_wrong_exception.
+
+(* F3: a saver of a side output listed first in `provides` fails at the last chunk: the pipeline hangs *)
+Theorem C06_pinned_F3_hang :
+  exists sched st,
+    nrun (fan_net f3_spec false (Some (3, 0, boom)) None) (fan_init f3_spec false (Some (3, 0, boom)) None) sched = Some st /\
+    deadlocked (fan_net f3_spec false (Some (3, 0, boom)) None) st /\
+    main_outcome st (fan_main f3_spec) = None.
+Proof. exists f3_sched. exact f3_hang. Qed.
+Print Assumptions C06_pinned_F3_hang.
+
+(* ---------- kill wakes everyone: for EVERY network (any plugin graph, any wiring, lazy or eager, any
+   capacities, any failure injection, repaired or not) and every schedule ---------- *)
+From SV Require Import Proof.MailboxFailWake.
+
+(* in every reachable state: (1) a thread blocked on a condition of a killed mailbox has been woken (no lost
+   wake-up across kill: kill notifies all three conditions); (2) kill() kills and force-kills; (3) a killed
+   mailbox stays killed; (4)-(6) every later read / send / fetch-gate region on it returns or raises without
+   waiting *)
+Theorem C06_kill_wakes_everyone :
+  forall (nt : net) (boxes : list mbox) (threads : list thread) (sched : list nat) (st : nstate),
+    (forall t, In t threads -> plain_pc (t_pc t)) -> (forall m, In m boxes -> mb_box m = []) ->
+    nrun nt (ninit nt boxes threads) sched = Some st ->
+    (forall i t j, nth_error (ths st) i = Some t -> waits_on t j -> mb_killed (get_mb st j) = true -> t_woken t = true) /\
+    (forall j c, j < length (mbs st) ->
+       mb_killed (get_mb (kill_mb st j c) j) = true /\ mb_fkilled (get_mb (kill_mb st j c) j) = true) /\
+    (forall sched' st' j, nrun nt st sched' = Some st' -> mb_killed (get_mb st j) = true -> mb_killed (get_mb st' j) = true) /\
+    (forall tid t resume, tid < length (ths st) -> mb_killed (get_mb st (r_mb (cur_r t))) = true ->
+       not_waiting (t_pc (get_th (read_region nt tid resume st t) tid))) /\
+    (forall tid t resume oi mg closing, tid < length (ths st) -> mb_killed (get_mb st (out_mb t oi)) = true ->
+       not_waiting (t_pc (get_th (send_region nt tid resume st t oi mg closing) tid))) /\
+    (forall tid t resume oi, tid < length (ths st) -> mb_killed (get_mb st (out_mb t oi)) = true ->
+       not_waiting (t_pc (get_th (gate_region nt tid resume st t oi) tid))).
+Proof. exact kill_wakes_everyone. Qed.
+Print Assumptions C06_kill_wakes_everyone.
+
+(* the general no-lost-wake-up invariant behind it: in every reachable state of every network, a thread waiting
+   with its woken flag clear has a false wait predicate (its message is absent and the mailbox not killed / the
+   box is full and not killed / _can_fetch is false) *)
+Theorem C06_network_no_lost_wakeup :
+  forall (nt : net) (boxes : list mbox) (threads : list thread) (sched : list nat) (st : nstate),
+    (forall t, In t threads -> plain_pc (t_pc t)) -> (forall m, In m boxes -> mb_box m = []) ->
+    nrun nt (ninit nt boxes threads) sched = Some st -> Wn st.
+Proof. intros nt boxes threads sched st Ht Hm. apply Wn_reachable; auto. Qed.
+Print Assumptions C06_network_no_lost_wakeup.
+
+(* ---------- the shutdown half, for EVERY network (any plugin DAG) and every schedule ---------- *)
+From SV Require Import Proof.MailboxFailShutdown.
+
+(* Once the caller's iterator has seen exception c (ThreadedMailboxProcessor.iter is killing the mailboxes, joining
+   the threads, or done: `noticed`), EVERY continuation that cannot be extended ends with all threads finished and the
+   caller holding exactly c — nothing can hang in kill-all / cleanup(), whatever the plugin graph, the capacities,
+   lazy or eager, wherever the other threads are.  The premises are decidable (cover_b: iter kills every mailbox and
+   joins every thread, one caller, wiring in range, repair F1; init_ok_b: the run starts with empty mailboxes and
+   buffers) and are evaluated by the harness on the network derived from every real processor it builds. *)
+Theorem C06_noticed_failure_shuts_down :
+  forall (nt : net) (main : nat) (boxes : list mbox) (threads : list thread),
+    cover_b nt (mkSt boxes threads) main = true -> init_ok_b boxes threads = true ->
+    forall sched st c, nrun nt (ninit nt boxes threads) sched = Some st -> noticed main st c ->
+    forall sched' st', nrun nt st sched' = Some st' -> quiescent nt st' ->
+      all_terminal st' = true /\ main_outcome st' main = Some (OErr (EOrig c)).
+Proof. exact shutdown_theorem_b. Qed.
+Print Assumptions C06_noticed_failure_shuts_down.
+
+(* ---------- the exception at the caller is an ORIGINAL one, for EVERY network and every schedule ---------- *)
+From SV Require Import Proof.MailboxFailOrig.
+
+(* Whatever the plugin graph and the schedule: if the caller's iteration ends with an exception, it is never a
+   MailboxKilled wrapper (iter unwraps it) and its identity is primary: the exception injected in a thread, the
+   consumer's exception, OutsideException / GeneratorExit of a close, or an error of the plumbing itself
+   (MailBoxAlreadyClosed, unequal inputs of a plugin) — with repair F2 never the StopIteration that used to
+   escape source.throw in divide_outputs, with repair F1 never the TypeError of the GeneratorExit branch. *)
+Theorem C06_caller_gets_original_exception :
+  forall (nt : net) (boxes : list mbox) (threads : list thread) (main : nat) (sched : list nat) (st : nstate) (e : exn),
+    (forall t, In t threads -> t_pc t = PRead /\ t_got t = None) ->
+    (forall m, In m boxes -> mb_killed m = false /\ mb_fkilled m = false) ->
+    nrun nt (ninit nt boxes threads) sched = Some st ->
+    main_outcome st main = Some (OErr e) ->
+    exists c, e = EOrig c /\ prim nt c.
+Proof. exact caller_gets_original. Qed.
+Print Assumptions C06_caller_gets_original_exception.
+
+(* ---------- all schedules of concrete chains and fan-outs, every failure position (verified exhaustive
+   exploration of the reachable state set, Proof/MailboxFailReach.v + Proof/MailboxFailInstances.v) ---------- *)
+From SV Require Import Proof.MailboxFailReach Proof.MailboxFailInstances Proof.MailboxFailInstChain
+  Proof.MailboxFailInstFan Proof.MailboxFailInstF2.
+
+(* chainA: 2 stages, saver on the target, 1 chunk, max_messages 1, eager (threads 0,1 stages; 2 saver);
+   chainS: 2 stages, savers on the intermediate output (2) and on the target (3), 1 chunk, eager: failing savers;
+   chainB: 2 stages, 2 chunks, lazy, through get_iter, max_messages 2/1, saver on the target (threads 0,1; 2 saver);
+   chainC: 3 stages, 1 chunk, eager and lazy.  EVERY thread x EVERY position (chunk or "at the end"), EVERY schedule:
+   all threads finish, the caller holds the injected exception, every saver is closed and marked. *)
+Theorem C06_failure_reaches_caller_chain_partial :
+  (forall ft fp, ft < 3 -> fp <= 1 ->
+     failure_reaches_caller (chain_net chainA true (Some (ft, fp, MailboxFailInstances.boom)) None)
+       (chain_init chainA true (Some (ft, fp, MailboxFailInstances.boom)) None) (chain_main chainA) 1 MailboxFailInstances.boom) /\
+  (forall ft fp, (ft = 2 \/ ft = 3) -> fp <= 1 ->
+     failure_reaches_caller (chain_net chainS true (Some (ft, fp, MailboxFailInstances.boom)) None)
+       (chain_init chainS true (Some (ft, fp, MailboxFailInstances.boom)) None) (chain_main chainS) 1 MailboxFailInstances.boom) /\
+  (forall ft fp, ft < 3 -> fp <= 2 ->
+     failure_reaches_caller (chain_net chainB true (Some (ft, fp, MailboxFailInstances.boom)) None)
+       (chain_init chainB true (Some (ft, fp, MailboxFailInstances.boom)) None) (chain_main chainB) 2 MailboxFailInstances.boom) /\
+  (forall lz ft fp, ft < 3 -> fp <= 1 ->
+     failure_reaches_caller (chain_net (chainC lz) true (Some (ft, fp, MailboxFailInstances.boom)) None)
+       (chain_init (chainC lz) true (Some (ft, fp, MailboxFailInstances.boom)) None) (chain_main (chainC lz)) 1 MailboxFailInstances.boom).
+Proof.
+  split; [|split; [|split]]; intros.
+  - apply chainA_failure_reaches_caller; auto.
+  - apply chainS_saver_failure_reaches_caller; auto.
+  - apply chainB_failure_reaches_caller; auto.
+  - apply chainC_failure_reaches_caller; auto.
+Qed.
+Print Assumptions C06_failure_reaches_caller_chain_partial.
+
+(* one-level fan-out (source 0, multi-output plugin 1, divide_outputs 2, saver of the side output 3), eager and lazy:
+   fanD: target first in `provides`; fanE: side output first (the configuration on which the code before repair F3
+   hangs); fanF: 2 chunks, max_messages 2, the saver of the side output fails at chunk 0 (the configuration on which
+   the code before repair F2 returns StopIteration).  With the repairs: every schedule delivers the exception. *)
+Theorem C06_failure_reaches_caller_fanout_partial :
+  (forall lz ft fp, (ft = 0 \/ ft = 1 \/ ft = 3) -> fp <= 1 ->
+     failure_reaches_caller (fan_net (fanD lz) true (Some (ft, fp, MailboxFailInstances.boom)) None)
+       (fan_init (fanD lz) true (Some (ft, fp, MailboxFailInstances.boom)) None) (fan_main (fanD lz)) 1 MailboxFailInstances.boom) /\
+  (forall lz ft fp, (ft = 0 \/ ft = 1 \/ ft = 3) -> fp <= 1 ->
+     failure_reaches_caller (fan_net (fanE lz) true (Some (ft, fp, MailboxFailInstances.boom)) None)
+       (fan_init (fanE lz) true (Some (ft, fp, MailboxFailInstances.boom)) None) (fan_main (fanE lz)) 1 MailboxFailInstances.boom) /\
+  failure_reaches_caller (fan_net fanF true (Some (3, 0, MailboxFailInstances.boom)) None)
+    (fan_init fanF true (Some (3, 0, MailboxFailInstances.boom)) None) (fan_main fanF) 2 MailboxFailInstances.boom.
+Proof.
+  split; [|split]; intros.
+  - apply fanD_failure_reaches_caller; auto.
+  - apply fanE_failure_reaches_caller; auto.
+  - apply fanF_saver_failure_reaches_caller.
+Qed.
+Print Assumptions C06_failure_reaches_caller_fanout_partial.
+
+(* the consumer raises / closes the iterator after chunk k: all threads stop on every schedule; close() of the
+   processor's own iterator returns (GeneratorExit re-raised), through get_iter the caller sees OutsideException *)
+Theorem C06_consumer_close_stops_all_partial :
+  failure_reaches_caller (chain_net chainA true None (Some (0, false, MailboxFailInstances.cexc)))
+    (chain_init chainA true None (Some (0, false, MailboxFailInstances.cexc))) (chain_main chainA) 1 MailboxFailInstances.cexc /\
+  failure_reaches_caller (chain_net chainA true None (Some (0, true, MailboxFailInstances.cexc)))
+    (chain_init chainA true None (Some (0, true, MailboxFailInstances.cexc))) (chain_main chainA) 1 C_GENEXIT /\
+  (forall k, k < 2 ->
+     failure_reaches_caller (chain_net chainB true None (Some (k, false, MailboxFailInstances.cexc)))
+       (chain_init chainB true None (Some (k, false, MailboxFailInstances.cexc))) (chain_main chainB) 2 MailboxFailInstances.cexc) /\
+  (forall k, k < 2 ->
+     failure_reaches_caller (chain_net chainB true None (Some (k, true, MailboxFailInstances.cexc)))
+       (chain_init chainB true None (Some (k, true, MailboxFailInstances.cexc))) (chain_main chainB) 2 C_OUTSIDE).
+Proof.
+  split; [|split; [|split]]; intros.
+  - apply chainA_consumer_exception.
+  - apply chainA_consumer_close.
+  - apply chainB_consumer_exception; auto.
+  - apply chainB_consumer_close; auto.
+Qed.
+Print Assumptions C06_consumer_close_stops_all_partial.
+
+(* without failures every schedule ends with all chunks at the caller, in order, and in every saver *)
+Theorem C06_no_failure_terminates_partial :
+  completes (chain_net chainA true None None) (chain_init chainA true None None) (chain_main chainA) 1 /\
+  completes (chain_net chainB true None None) (chain_init chainB true None None) (chain_main chainB) 2 /\
+  (forall lz, completes (fan_net (fanD lz) true None None) (fan_init (fanD lz) true None None) (fan_main (fanD lz)) 1).
+Proof.
+  split; [|split]; [apply chainA_completes | apply chainB_completes | intros; apply fanD_completes].
+Qed.
+Print Assumptions C06_no_failure_terminates_partial.
+
+(* ---------- full statements (for the repaired code, fx = true) ---------- *)
+
+(* chains of any length, any capacities >= 1, lazy or eager, any number of savers per mailbox: a failure at any
+   position of any thread (plugin / source at chunk fp or at its end fp = N; saver at chunk fp) reaches the
+   caller as the original exception on every schedule; nothing hangs; every saver is closed and marked *)
+Definition C06_full_failure_reaches_caller_chain : Prop :=
+  forall (sp : chain_spec) (ft fp c : nat),
+    valid_chain sp -> ft < chain_main sp -> fp <= ch_N sp ->
+    failure_reaches_caller (chain_net sp true (Some (ft, fp, c)) None) (chain_init sp true (Some (ft, fp, c)) None)
+                           (chain_main sp) (ch_N sp) c.
+
+(* one-level fan-out: source -> multi-output plugin -> divide_outputs -> target x and side output y (saved or
+   discarded), either order of `provides`; the failing thread is the source (0), the plugin (1) or a saver *)
+Definition C06_full_failure_reaches_caller_fanout : Prop :=
+  forall (sp : fan_spec) (ft fp c : nat),
+    valid_fan sp -> (ft < 2 \/ (3 <= ft < 3 + fn_savx sp + fn_savy sp)) -> fp <= fn_N sp ->
+    failure_reaches_caller (fan_net sp true (Some (ft, fp, c)) None) (fan_init sp true (Some (ft, fp, c)) None)
+                           (fan_main sp) (fn_N sp) c.
+
+(* the consumer raises c while handling chunk k *)
+Definition C06_full_consumer_exception_chain : Prop :=
+  forall (sp : chain_spec) (k c : nat),
+    valid_chain sp -> k < ch_N sp ->
+    failure_reaches_caller (chain_net sp true None (Some (k, false, c))) (chain_init sp true None (Some (k, false, c)))
+                           (chain_main sp) (ch_N sp) c.
+
+(* the consumer closes the iterator after chunk k: all threads stop; the caller sees OutsideException through
+   Context.get_iter, a plain return of close() (GeneratorExit re-raised) on the processor's own iterator *)
+Definition C06_full_consumer_close_stops_all : Prop :=
+  forall (sp : chain_spec) (k c : nat),
+    valid_chain sp -> k < ch_N sp ->
+    failure_reaches_caller (chain_net sp true None (Some (k, true, c))) (chain_init sp true None (Some (k, true, c)))
+                           (chain_main sp) (ch_N sp) (if ch_relay sp then C_OUTSIDE else C_GENEXIT).
+
+(* without failures every maximal schedule ends with everything delivered and saved; chains and fan-outs have no
+   chunk lag (every stage is 1:1), so any capacity >= 1 is enough *)
+Definition C06_full_no_failure_terminates : Prop :=
+  (forall sp : chain_spec, valid_chain sp ->
+     completes (chain_net sp true None None) (chain_init sp true None None) (chain_main sp) (ch_N sp)) /\
+  (forall sp : fan_spec, valid_fan sp ->
+     completes (fan_net sp true None None) (fan_init sp true None None) (fan_main sp) (fn_N sp)).
+
+(* general plugin DAGs (several dependencies per plugin, diamonds, any number of multi-output plugins): stated over
+   the decidable description Model/C06Dag.v (one sender per mailbox, one reader per subscriber slot, acyclic,
+   capacities >= 1, iter kills and joins everything, all three repairs); every stage is 1:1 so no chunk lag has to be
+   bounded by the capacities.  NOT proved: the shutdown half is C06_noticed_failure_shuts_down, the exception identity
+   C06_caller_gets_original_exception; the propagation half (the failure always reaches the caller's read) is covered
+   by the correspondence (diamonds under the controlled scheduler) only.  The harness evaluates dag_ok_b (extracted)
+   on the network derived from every real processor built from hand-made components. *)
+From SV Require Import Model.C06Dag.
+Definition C06_full_threaded_dag : Prop :=
+  forall (nt : net) (boxes : list mbox) (threads : list thread) (main N ft fp c : nat),
+    dag_ok_b nt (mkSt boxes threads) N main = true -> init_ok_b boxes threads = true ->
+    n_fault nt = Some (ft, fp, c) -> fault_ok_b nt (mkSt boxes threads) N = true ->
+    failure_reaches_caller nt (ninit nt boxes threads) main N c.
